@@ -192,6 +192,21 @@ CHECKS["C20"] = {
     "note": TB + "; probe middlewares written in the harness; stacks that hand an int to RemoveEnclosing are skipped (type-state)",
 }
 
+CHECKS["C07"] = {
+    "text": "Middleware.tla models the heap (library -> block list -> blocks -> field list/fields/values/metadata, with "
+            "identities, references and version counters) and the six ways a shipped middleware treats its input (per-block "
+            "deepcopy, in place, library deepcopy, sorter, default write stack); MC_Middleware checks InvInputFrozen, "
+            "InvNoAlias and StepNoAlias for all stacks of up to 3 applications and shows with a second configuration that "
+            "the deviation ShallowBlockCopy violates them. On the code, all 35 (middleware class, option set) pairs in copy "
+            "mode are applied alone, in all/sampled pairs and sampled triples to 6 libraries parsed at different value "
+            "type-states (with failed, duplicate, duplicate-field and middleware-error blocks), plus write_string twice with "
+            "three formats; each application is an event (shared mutable object ids, input projection before/after, exception, "
+            "value types) validated by TLC against the copy-mode action, an exception being admitted only where the "
+            "type-state of the pipeline makes the middleware inapplicable.",
+    "ref": "6/C07", "technique": "TLA+ heap-level spec (Middleware.tla) model-checked with TLC + TLC validation of recorded middleware applications",
+    "note": TB + "; Python id()/deepcopy semantics; sharing of immutable values and exception objects is not aliasing",
+}
+
 NOT_APPLICABLE = {}
 for _e in ENGINES:
     _e["serves_properties"] = sorted(CHECKS)
